@@ -102,7 +102,8 @@ static ReadResult read_entry(int fmt, const std::string &bytes, const Split &sp,
             for (size_t a = 0; a < (major ? cap : n); a++)
                 for (size_t b = 0; b < (major ? n : cap); b++) table[a][b] = (a + b) % 2;
             size_t got = major ? reader->read_into_table_with_major_shot_index(table, cap) : reader->read_into_table_with_minor_shot_index(table, cap);
-            for (size_t s = 0; s < got; s++) {
+            // (the ptb64 table is sized in whole groups of 64 shots; only the first `max_shots` are compared with the per-shot readers)
+            for (size_t s = 0; s < got && s < max_shots; s++) {
                 std::vector<bool> r(n);
                 for (size_t i = 0; i < n; i++) r[i] = major ? table[s][i] : table[i][s];
                 res.recs.push_back(r);
